@@ -9,6 +9,7 @@
 -/
 import JP.Lemmas.Filter
 import JP.Lemmas.Patch
+import JP.Lemmas.RfcSpellF
 namespace JP.Props.C02
 open JP JP.Query JP.Lemmas
 
@@ -55,6 +56,24 @@ theorem filter_refines_rfc (rx : Rx) (segs : List Seg) (doc extra : J) (hwt : Rf
     RepresentsAll (finditer rx ⟨segs, false⟩ doc extra) (Rfc.query rx segs doc) := by
   unfold finditer Rfc.query
   exact Lemmas.segs_refines_rfc_wt _ ⟨rx, doc⟩ ⟨rfl, rfl, rfl⟩ segs _ _ hwt ⟨⟨rfl, rfl, rfl⟩, trivial⟩
+
+/-! ## Spellings of filter queries (character level) -/
+
+/-- **Every RFC 9535 spelling of a query with filter selectors compiles to that query.**
+    `RfcSpellF.QuerySpellF segs text` is the RFC grammar of sections 2.1-2.5 including `filter-selector`,
+    `logical-or-expr` / `logical-and-expr` chains, parenthesised expressions and `!`, test expressions, comparisons
+    of literals (RFC numbers with fractions and exponents, strings in either quote style with any escapes,
+    `true` / `false` / `null`), singular and general queries, function calls with arguments, nested filters, and
+    blanks wherever the grammar allows `S` — written from the ABNF in `JP/RfcSpellF.lean`. The composed model of
+    compile (character-level lexer, literal decoding, Pratt parser with the translated precedence table) returns
+    exactly `segs`: operator precedence, grouping and the reading of every literal are as the RFC's grammar says.
+    (`||` / `&&` chains associate to the right in the parser's abstract syntax, which is what the grammar relation
+    records; an argument of a function may not begin with `!` or `(` - such calls are ill-typed for the five
+    standard functions.) -/
+theorem any_filter_spelling_compiles (pr : Surface.Prec) (hpr : Surface.precOK pr = true) (uw : Char → Bool) (segs : List Seg) (text : Str)
+    (h : RfcSpellF.QuerySpellF segs text) :
+    Lex.compileText pr ⟨Lex.dflt, uw⟩ text = some ⟨segs, false⟩ :=
+  Lemmas.rfc_filter_spelling_compiles pr hpr uw segs text h
 
 /-! ### Non-vacuity -/
 example : Rfc.wtSegs [.child [.filter (.infix (.infix (.self [.child [.name ['a']]]) .lt (.int 2)) .and
